@@ -148,7 +148,7 @@ pub struct FileNumber {''')]),
          desc='the entry buffer is not cleared when a First frame starts an entry',
          edits=[(RRD, '''                        self.within_record = true;
                         self.record_buffer.clear();''', '''                        self.within_record = true;''')]),
-    dict(name='crc_failure_quarantines_block', props=['C09'], rules=['FR6'],
+    dict(name='crc_failure_quarantines_block', props=['C09'], rules=['FR6', 'FR9'],
          desc='a CRC failure also sets block_corrupted',
          edits=[(FRD, '''            // but the frame length was correct.
             return Err(ReadFrameError::Corruption);''', '''            // but the frame length was correct.
@@ -1239,3 +1239,58 @@ REFACTORS += [
                 ]),
 ]
 
+
+# ---- mutants for the rules / clauses added after the fourth seeded round (DESIGN §12)
+MUTANTS += [
+    dict(name='name_parser_hand_rolled_fold', props=['C10', 'C17'], rules=['FS7'], desc='parse::<u64>().ok() replaced by a digit fold that overflows on 20 digits',
+         edits=[(DIR, '    file_name[4..].parse::<u64>().ok()', "    Some(file_name[4..].bytes().fold(0u64, |acc, digit| acc * 10 + (digit - b'0') as u64))")]),
+    dict(name='tracker_dense_range', props=['C17', 'C01'], rules=['FT3'], desc='tracker rebuilt as min..=max of the scanned numbers',
+         edits=[(FNUM, '        let files = file_numbers.into_iter().map(FileNumber::new).collect();',
+                 '        let lo = *file_numbers.iter().min()?;\n        let hi = *file_numbers.iter().max()?;\n        let files = (lo..=hi).map(FileNumber::new).collect();')]),
+    dict(name='queue_name_clamped_in_wal', props=['C18', 'C01'], rules=['ISO5'], desc='the encoder writes a clamped prefix of an over-long queue name instead of asserting',
+         edits=[(REC, '    assert!(queue.len() <= u16::MAX as usize);\n', '    let queue = &queue[..queue.len().min(u16::MAX as usize)];\n')]),
+    dict(name='policy_deadline_subtracts_overshoot', props=['C14'], rules=['NI8'], desc='next deadline = now + (interval - overshoot): Duration subtraction panics on a long idle gap',
+         edits=[(PP, '            } => *next_persist = Instant::now() + *interval,', '            } => *next_persist = Instant::now() + (*interval - next_persist.elapsed()),')]),
+    dict(name='replay_skips_known_positions', props=['C12'], rules=['RP4'], desc='replay skips a record whose position is below the next position instead of failing the open',
+         edits=[(MRL, '                            let (position, payload) = record?;\n', '                            let (position, payload) = record?;\n                            if position < in_mem_queues.next_position(queue).unwrap_or(0) {\n                                continue;\n                            }\n')]),
+    dict(name='padding_counted_as_header_len', props=['C15'], rules=['BY1'], desc='padding counted as zero_bytes.len() (always 7) instead of the bytes written',
+         edits=[(FWR, '            num_bytes_written += num_bytes_remaining_in_block;', '            num_bytes_written += zero_bytes.len();')]),
+    dict(name='empty_queue_scan_gated_by_flag', props=['C01', 'C04', 'C18'], rules=['ISO4', 'GC1'], desc='the empty-queue yielder leaves empty queues out when a flag says so',
+         edits=[(QS, '        self.queues.iter_mut().filter_map(|(queue, mem_queue)| {\n            if mem_queue.is_empty() {', '        let many = self.queues.len() > 1000;\n        self.queues.iter_mut().filter_map(move |(queue, mem_queue)| {\n            if !many && mem_queue.is_empty() {')]),
+    dict(name='position_pass_skips_some_queues', props=['C01', 'C04'], rules=['GC1'], desc='the position pass skips queues whose next position is 0',
+         edits=[(MRL, '            let next_position = queue.next_position();\n            let record = MultiPlexedRecord::RecordPosition {', '            let next_position = queue.next_position();\n            if next_position == 0 {\n                continue;\n            }\n            let record = MultiPlexedRecord::RecordPosition {')]),
+    dict(name='map_truncate_fast_path_for_empty', props=['C04'], rules=['PAST4'], desc='MemQueues::truncate answers Some(0) for an empty queue without calling truncate_head',
+         edits=[(QS, '        if let Ok(queue) = self.get_queue_mut(queue) {\n            Some(queue.truncate_head(position))', '        if let Ok(queue) = self.get_queue_mut(queue) {\n            if queue.is_empty() {\n                return Some(0);\n            }\n            Some(queue.truncate_head(position))')]),
+    dict(name='replay_position_only_for_unknown_queue', props=['C09', 'C01'], rules=['RP5'], desc='RecordPosition replayed only for queues replay does not know yet',
+         edits=[(MRL, '                    MultiPlexedRecord::RecordPosition { queue, position } => {\n                        in_mem_queues.ack_position(queue, position);', '                    MultiPlexedRecord::RecordPosition { queue, position } => {\n                        if !in_mem_queues.contains_queue(queue) {\n                            in_mem_queues.ack_position(queue, position);\n                        }')]),
+    dict(name='end_of_log_on_checksum_word', props=['C07', 'C08'], rules=['FR3z'], desc='end of log decided on the 4 checksum bytes only',
+         edits=[(FRD, '        if header_bytes == [0u8; HEADER_LEN] {', '        if header_bytes[..4] == [0u8; 4] {')]),
+]
+
+REFACTORS += [
+    dict(name='padding_in_counted_helper', desc='end-of-block padding moved to a helper that returns the number of bytes it wrote',
+         edits=[(FWR, '''        let mut num_bytes_written = 0;
+        let num_bytes_remaining_in_block = self.wrt.num_bytes_remaining_in_block();
+
+        if num_bytes_remaining_in_block < HEADER_LEN {
+            let zero_bytes = [0u8; HEADER_LEN];
+            self.wrt
+                .write(&zero_bytes[..num_bytes_remaining_in_block])?;
+            num_bytes_written += num_bytes_remaining_in_block;
+        }
+''', '''        let mut num_bytes_written = self.pad_block_if_needed()?;
+'''),
+                (FWR, '''    /// Flush the buffered writer used in the FrameWriter.''', '''    fn pad_block_if_needed(&mut self) -> io::Result<usize> {
+        let num_bytes_remaining_in_block = self.wrt.num_bytes_remaining_in_block();
+        if num_bytes_remaining_in_block >= HEADER_LEN {
+            return Ok(0);
+        }
+        let padding = [0u8; HEADER_LEN];
+        self.wrt.write(&padding[..num_bytes_remaining_in_block])?;
+        Ok(num_bytes_remaining_in_block)
+    }
+
+    /// Flush the buffered writer used in the FrameWriter.''')]),
+    dict(name='tracker_first_checked_with_question_mark', desc='from_file_numbers tests emptiness through `first()?`',
+         edits=[(FNUM, '        if file_numbers.is_empty() {\n            return None;\n        }\n', '        let _first = file_numbers.first()?;\n')]),
+]
